@@ -21,42 +21,42 @@ theorem F102_empty_dcs :
     (run PState.init [0x1B, 0x50, 0x30, 0x2B, 0x72, 0x1B, 0x5C]).2 = [.dcs 0x72 [0x2B] [0] [], .esc [] 0x5C] ∧
     (Spec.VT500.run [0x1B, 0x50, 0x30, 0x2B, 0x72, 0x1B, 0x5C]).1 = [.dcs 0x72 [0x2B] [0] []] := by decide
 
-/-- F102c: `ESC ] 0 ESC LF \` — a C0 between the ESC and the `\` drops the suppression. -/
-theorem F102c_c0_in_st :
-    (run PState.init [0x1B, 0x5D, 0x30, 0x1B, 0x0A, 0x5C]).2 = [.osc [0x30], .c0 0x0A, .esc [] 0x5C] ∧
+/-- F102c **repaired**: `ESC ] 0 ESC LF \` — a C0 executed between the ESC and the `\` no longer
+    drops the suppression: model (= the code now) and Spec agree; the witness stays in corpus/C02. -/
+theorem F102c_c0_in_st_fixed :
+    (run PState.init [0x1B, 0x5D, 0x30, 0x1B, 0x0A, 0x5C]).2 = [.osc [0x30], .c0 0x0A] ∧
     (Spec.VT500.run [0x1B, 0x5D, 0x30, 0x1B, 0x0A, 0x5C]).1 = [.osc [0x30], .c0 0x0A] := by decide
 
-/-- F102d: bytes `D8 80 FF` in one read, uniseg joining the rune after the Prepend character
-    U+0600 to it: the invalid byte FF is delivered as U+FFFD; the Spec wants the raw byte. -/
-theorem F102d_invalid_after_prepend :
+/-- … and the suppression is still dropped by everything that leaves `escape`: `ESC ] 0 ESC A ESC \`
+    delivers the second `ESC \` (Alt+\), as the Spec does. -/
+theorem F102c_other_sequences_still_clear :
+    (run PState.init [0x1B, 0x5D, 0x30, 0x1B, 0x41, 0x1B, 0x5C]).2 = [.osc [0x30], .esc [] 0x41, .esc [] 0x5C] ∧
+    (Spec.VT500.run [0x1B, 0x5D, 0x30, 0x1B, 0x41, 0x1B, 0x5C]).1 = [.osc [0x30], .esc [] 0x41, .esc [] 0x5C] := by
+  decide
+
+/-- F102d **repaired**: bytes `D8 80 FF` in one read, uniseg joining the rune after the Prepend
+    character U+0600 to it: the look-ahead stops in front of the invalid byte FF, `readRune`
+    delivers it raw — what the Spec wants. -/
+theorem F102d_invalid_after_prepend_fixed :
     runChunks handTable (fun p => if p = 0 then 2 else 1) [[0xD8, 0x80, 0xFF]] =
-      [.print [0x600, 0xFFFD], .seq .eof] ∧
+      [.print [0x600], .print [0xFF], .seq .eof] ∧
     Spec.VT500.decode [0xD8, 0x80, 0xFF] = [0x600, 0xFF] := by decide
 
+open VaxisModel.Model.ParserUtf8 in
+/-- … and the result no longer depends on the split: `D8 80 | FF` delivers the same. -/
+theorem F102d_split_independent :
+    flat (runChunks handTable (fun p => if p = 0 then 2 else 1) [[0xD8, 0x80, 0xFF]]) =
+    flat (runChunks handTable (fun p => if p = 0 then 2 else 1) [[0xD8, 0x80], [0xFF]]) := by decide
 
 open VaxisModel.Model.ParserUtf8 VaxisModel.Props.C02Text in
-/-- F102d at the level of the round-2 statements: without the hypothesis on the oracle, text is
-    **not** conserved — `D8 80 FF` in one read with an oracle that joins the rune after U+0600 to it
-    delivers U+FFFD where the stream has the raw byte FF. -/
-theorem F102d_text_altered : ¬ text_conserved_full := by
+/-- Why `chunk_independent` keeps a hypothesis on the oracle (a parameter standing for uniseg): an
+    "oracle" that joins an ESC to the letter before it makes the look-ahead swallow the ESC into the
+    Print when both arrive in one read.  uniseg never does that (GB4/GB5; counter `oracle-joins-c0`). -/
+theorem chunk_independent_needs_c0_oracle : ¬ chunk_independent_full := by
   intro h
-  have := h (fun p => if p = 0 then 2 else 1) [[0xD8, 0x80, 0xFF]] (by decide)
+  have := h (fun p => if p = 0 then 2 else 1) [[0x61, 0x1B, 0x5B, 0x6D]] [[0x61], [0x1B, 0x5B, 0x6D]] (by decide)
   revert this
   decide
-
-open VaxisModel.Model.ParserUtf8 VaxisModel.Props.C02Text in
-/-- … and the result **does** depend on the split: the same bytes as `D8 80 | FF` deliver the raw byte. -/
-theorem F102d_split_dependent : ¬ chunk_independent_full := by
-  intro h
-  have := h (fun p => if p = 0 then 2 else 1) [[0xD8, 0x80, 0xFF]] [[0xD8, 0x80], [0xFF]] (by decide)
-  revert this
-  decide
-
-/-- That oracle is exactly what the hypothesis of the `…_partial` theorems excludes. -/
-theorem F102d_oracle_not_respectful :
-    ¬ VaxisModel.Model.ParserUtf8.Respects (fun p => if p = 0 then 2 else 1) 0
-        (VaxisModel.Model.ParserUtf8.units [0xD8, 0x80, 0xFF]) := by decide
-
 
 open VaxisModel.Props.C02Refine in
 /-- The whole-stream refinement against the Spec proper, without exclusions, is false of the code:
